@@ -14,25 +14,28 @@ pub fn dump<'tcx>(tcx: TyCtxt<'tcx>) -> J {
             DefKind::Fn | DefKind::AssocFn => {}
             _ => continue,
         }
-        let body = tcx.hir_body_owned_by(ldid);
-        let tr = tcx.typeck(ldid);
-        let d = D { tcx, tr };
-        let (f, l) = line_of(tcx, tcx.def_span(did));
-        let mut params = Vec::new();
-        for p in body.params {
-            let t = tr.node_type(p.hir_id);
-            params.push(J::A(vec![d.pat(p.pat), J::S(tystr(t))]));
+        let r = std::panic::catch_unwind(std::panic::AssertUnwindSafe(|| {
+            let body = tcx.hir_body_owned_by(ldid);
+            let tr = tcx.typeck(ldid);
+            let d = D { tcx, tr };
+            let (f, l) = line_of(tcx, tcx.def_span(did));
+            let mut params = Vec::new();
+            for p in body.params {
+                let t = tr.node_type(p.hir_id);
+                params.push(J::A(vec![d.pat(p.pat), J::S(tystr(t))]));
+            }
+            let fn_ctxt = tcx.def_span(did).ctxt();
+            J::O(vec![
+                ("path".into(), J::S(path(tcx, did))),
+                ("file".into(), J::S(f)),
+                ("line".into(), J::I(l as i128)),
+                ("params".into(), J::A(params)),
+                ("body".into(), d.expr(body.value, fn_ctxt)),
+            ])
+        }));
+        if let Ok(j) = r {
+            out.push(j);
         }
-        let root = SyntaxContext::root();
-        let fn_ctxt = tcx.def_span(did).ctxt();
-        let _ = root;
-        out.push(J::O(vec![
-            ("path".into(), J::S(path(tcx, did))),
-            ("file".into(), J::S(f)),
-            ("line".into(), J::I(l as i128)),
-            ("params".into(), J::A(params)),
-            ("body".into(), d.expr(body.value, fn_ctxt)),
-        ]));
     }
     J::A(out)
 }
